@@ -94,6 +94,11 @@ type env struct {
 
 	opSeq         int
 	allOps        map[uint64]*opRec // by id, across sessions (ids are unique per run unless a family says otherwise)
+	// shadow: operations still held for an EARLIER session whose id a later session has used again (a new
+	// client numbers its operations from 1). Their session lost the primary role, so they need not be
+	// answered and the implementation may keep or drop them; if one resolves, its result arrives on the
+	// current primary's stream under an id that stream also uses (known finding KF-C06-1).
+	shadow map[uint64]*opRec
 	perNIFlush    bool
 	maxElec       [2]uint64
 	modelStates   map[uint64]bool
@@ -324,8 +329,19 @@ func (e *env) processResults(s *session, rs []*spb.ModifyResponse) {
 
 func (e *env) oneResult(s *session, res *spb.AFTResult) {
 	rec := s.sent[res.GetId()]
+	if sh := e.shadow[res.GetId()]; rec != nil && sh != nil && e.resultIsForShadow(rec, sh, res) {
+		e.probe("held operation of an earlier session answered under an id the current session uses too")
+		e.report("C06", "foreign-result", fmt.Sprintf("result for held operation of another session (reused id, %s)", res.GetStatus()),
+			fmt.Sprintf("stream of session %d carried %s for id %d; its own operation with that id (%s) was already answered or cannot be meant, and session %d still had %s held under the same id",
+				s.idx, res.GetStatus(), res.GetId(), describeOp(rec.op), sh.sess, describeOp(sh.op)), true)
+		e.applyVerdict(sh, res, true)
+		return
+	}
 	if rec == nil {
 		other := e.allOps[res.GetId()]
+		if sh := e.shadow[res.GetId()]; sh != nil && (sh.state == opHeld || sh.state == opSent || (sh.state == opProgrammed && res.GetStatus() == spb.AFTResult_FIB_PROGRAMMED)) {
+			other = sh // the id was used again by an intermediate session; the held operation is the earlier one
+		}
 		if other != nil {
 			what := "unanswered operation"
 			if other.state == opHeld || other.wasHeld {
@@ -342,6 +358,55 @@ func (e *env) oneResult(s *session, res *spb.AFTResult) {
 		return
 	}
 	e.applyVerdict(rec, res, false)
+}
+
+// implHeldIDs returns the ids of the operations the implementation holds (hook), leaving out operations
+// of earlier sessions that are shadowed by a later use of their id (they may be kept or dropped), and
+// forgets the shadowed operations the implementation no longer holds. Which of two same-id operations
+// is held is told apart by content.
+func (e *env) implHeldIDs() []uint64 {
+	var out []uint64
+	seen := map[uint64]bool{}
+	for _, p := range e.srv.VerifRIB().VerifPending() {
+		cur := e.allOps[p.ID]
+		if sh := e.shadow[p.ID]; sh != nil && (cur == nil || !proto.Equal(cur.op, p.Op)) && proto.Equal(sh.op, p.Op) {
+			seen[p.ID] = true
+			continue
+		}
+		out = append(out, p.ID)
+	}
+	for id, sh := range e.shadow {
+		if !seen[id] && (sh.state == opHeld || sh.state == opSent) {
+			delete(e.shadow, id) // dropped by the implementation (its session lost the primary role: legitimate)
+		}
+	}
+	return out
+}
+
+// resultIsForShadow decides whether a result that arrived under an id used both by the stream's own
+// operation own and by a still-held operation sh of an earlier session belongs to the latter.
+func (e *env) resultIsForShadow(own, sh *opRec, res *spb.AFTResult) bool {
+	ownTerminal := own.state == opProgrammed || own.state == opFailed
+	shLive := sh.state == opHeld || sh.state == opSent
+	switch res.GetStatus() {
+	case spb.AFTResult_FIB_PROGRAMMED:
+		if own.state == opProgrammed && own.fib == 0 {
+			return false
+		}
+		return sh.state == opProgrammed && sh.fib == 0
+	case spb.AFTResult_RIB_PROGRAMMED:
+		if ownTerminal {
+			return shLive
+		}
+		if v, _, _ := e.model.Expect(own.op); v == VProgram || v == VEither {
+			return false
+		}
+		v, _, _ := e.model.Expect(sh.op)
+		return shLive && v == VProgram
+	case spb.AFTResult_FAILED:
+		return ownTerminal && shLive
+	}
+	return false
 }
 
 func (e *env) applyVerdict(rec *opRec, res *spb.AFTResult, foreign bool) {
@@ -472,9 +537,9 @@ func (e *env) afterQuiescenceChecks(s *session) {
 	var modelHeld []uint64
 	var implHeld []uint64
 	implHolds := map[uint64]bool{}
-	for _, p := range e.srv.VerifRIB().VerifPending() {
-		implHeld = append(implHeld, p.ID)
-		implHolds[p.ID] = true
+	for _, id := range e.implHeldIDs() {
+		implHeld = append(implHeld, id)
+		implHolds[id] = true
 	}
 	for _, id := range ids {
 		rec := e.allOps[id]
